@@ -685,17 +685,35 @@ const GUARD_FRAGS: &[&str] = &[
     "<textarea><p></textarea>", "<p>",
 ];
 
+/// Histories that leave guard state behind (a select closed by its template's end tag, nested
+/// templates, the same inside an integration point), each followed by every guard sequence.
+const GUARD_HISTORIES: &[&str] = &[
+    "<template><select></template>",
+    "<template><template><select></template>",
+    "<svg><foreignObject><template><select></template></foreignObject></svg>",
+    "<math><mi><template><select></template></mi></math>",
+    "<select><template></template></select><template><select><option></template>",
+];
+
 fn guard_sweep(ctx: &Ctx, name: &str, max: usize) {
+    guard_sweep_with(ctx, name, max, &[""])
+}
+
+fn guard_sweep_with(ctx: &Ctx, name: &str, max: usize, prefixes: &[&str]) {
     let k = GUARD_FRAGS.len();
-    let n = count_upto(k, max);
-    par_for(n, 64, |j| {
+    let n = count_upto(k, max) * prefixes.len();
+    par_for(n, 64, |jj| {
         if ctx.over_time() {
             return;
         }
+        let j = jj / prefixes.len();
         let mut idx = vec![];
         let mut raw = vec![];
         seq_at(j, k, &mut idx);
         render_frags(GUARD_FRAGS, &idx, &mut raw);
+        let mut with_prefix = prefixes[jj % prefixes.len()].as_bytes().to_vec();
+        with_prefix.extend_from_slice(&raw);
+        let raw = with_prefix;
         if let Some(msg) = check_input(&raw, Depth::L0, Some(ctx)) {
             let msg = check_input(&raw, Depth::L1, None).unwrap_or(msg);
             report(ctx, &raw, msg, None);
@@ -784,6 +802,7 @@ pub fn run_check(ctx: &Ctx) -> i32 {
         g_sweep(ctx, "G<=6 nodes x L0,L1", 6, Depth::L1);
         start_tag_syntax_sweep(ctx, "12 element names x attribute-syntax pieces<=4 x L0,L1", 4, Depth::L1);
         guard_sweep(ctx, "17-fragment ambiguity-guard alphabet (select/template/frameset structure x complete text-mode elements) <=5 x L0, refusal required AND justified", 5);
+        guard_sweep_with(ctx, "5 guard histories (select closed by its template's end tag, nested templates, inside integration points) x guard alphabet <=3 x L0", 3, GUARD_HISTORIES);
     } else {
         soup_sweep(ctx, "F<=3 x 7 capture sets x strict{t,f} x L0,L1 + public handlers", Space::Frags { k, max: 3 }, Depth::L1);
         soup_sweep(ctx, "Fcore<=4 x L0,L1", Space::Frags { k: F_CORE, max: 4 }, Depth::L1);
@@ -793,6 +812,7 @@ pub fn run_check(ctx: &Ctx) -> i32 {
         g_sweep(ctx, "G<=7 nodes x L0,L1", 7, Depth::L1);
         start_tag_syntax_sweep(ctx, "12 element names x attribute-syntax pieces<=5 x L0,L1", 5, Depth::L1);
         guard_sweep(ctx, "17-fragment ambiguity-guard alphabet (select/template/frameset structure x complete text-mode elements) <=6 x L0, refusal required AND justified", 6);
+        guard_sweep_with(ctx, "5 guard histories (select closed by its template's end tag, nested templates, inside integration points) x guard alphabet <=4 x L0", 4, GUARD_HISTORIES);
     }
     ctx.finish(
         "model_checking",
